@@ -218,6 +218,18 @@ int main(int argc, char** argv) {
             // pre-fill the whole table with ordinary hash entries so that an unfinished table region holds foreign bytes
             for (int i = 0; i < 3000000; i++)
                 tt.insert(rnd.nextU64(), Move(Square(rnd.nextInt(64)), Square(rnd.nextInt(64)), 0), TType::T_EXACT, 1, 1 + rnd.nextInt(20), rnd.nextInt(200) - 100);
+            // every other scenario: a table for other material is already resident (built by an earlier search) when the generation
+            // for this class starts; an abort must not leave that older table answering from storage the new one has overwritten
+            Cls prevCls = parseClass(c.name == "KRK" ? "KQK" : "KRK");
+            const bool withPrev = (scen % 2) == 1;
+            if (withPrev) {
+                Position prevSample;
+                U64 pspace = 2ULL << (6 * prevCls.men.size());
+                while (!placeIdx(prevCls, rnd.nextU64() % pspace, prevSample)) {}
+                RelaxedShared<S64> noLimit(-1);
+                gMaxT = nullptr; gAbortPhase = -1; gFired = false;
+                tt.updateTB(prevSample, noLimit);
+            }
             RelaxedShared<S64> maxT(-1);
             if (pt.first >= 0) maxT = 1000000;   // a (large) time limit so that the limit tests are armed
             gMaxT = &maxT; gAbortPhase = pt.first; gAbortN = pt.second; gFired = false;
@@ -241,6 +253,13 @@ int main(int argc, char** argv) {
             for (int k = 0; k < 60; k++) {
                 while (!placeIdx(c, rnd.nextU64() % space, pos)) {}
                 os << rowJ(pos, pr, "tt-after") << "\n"; probes++;
+            }
+            if (withPrev) {
+                U64 pspace = 2ULL << (6 * prevCls.men.size());
+                for (int k = 0; k < 60; k++) {
+                    while (!placeIdx(prevCls, rnd.nextU64() % pspace, pos)) {}
+                    os << rowJ(pos, pr, "tt-after-prev") << "\n"; probes++;
+                }
             }
             scen++;
         }
